@@ -27,10 +27,11 @@ type svidSource struct {
 // GetX509SVID returns the current X.509 certificate identity as a SPIFFE SVID.
 // Implements the go-spiffe x509 source interface.
 func (s *svidSource) GetX509SVID() (*x509svid.SVID, error) {
+	// Wait for the first SVID to be ready before taking the lock: Run needs the write lock to set it
+	<-s.spiffe.readyCh
+
 	s.spiffe.lock.RLock()
 	defer s.spiffe.lock.RUnlock()
-
-	<-s.spiffe.readyCh
 
 	svid := s.spiffe.currentSVID
 	if svid == nil {
